@@ -4,7 +4,9 @@ import (
 	"bytes"
 	"encoding/json"
 	"fmt"
+	"math"
 	"math/big"
+	"strconv"
 	"strings"
 
 	"verifharness/internal/gen"
@@ -391,6 +393,67 @@ func runC05(c *ctx) {
 		}
 	}
 
+	// decimals just above and below the midpoint of two adjacent floats, with many digits: the stored value is the
+	// nearest float of the item's width to the exact decimal (one rounding, not float64 first and then float32)
+	c.parallel(c.pick(6000, 100000), func(i int, r *rng.R) {
+		k := ref.F4
+		if i%4 == 3 {
+			k = ref.F8
+		}
+		prec := uint(600)
+		var lo, hi *big.Float
+		if k == ref.F4 {
+			b := gen.F4Bits(r) &^ 0x80000000
+			if b >= 0x7F7FFFFF {
+				b = 0x7F7FFFFE - uint32(r.Intn(100))
+			}
+			lo = new(big.Float).SetPrec(prec).SetFloat64(float64(math.Float32frombits(b)))
+			hi = new(big.Float).SetPrec(prec).SetFloat64(float64(math.Float32frombits(b + 1)))
+		} else {
+			b := gen.F8Bits(r) &^ (1 << 63)
+			if b >= 0x7FEFFFFFFFFFFFFF {
+				b = 0x7FEFFFFFFFFFFFFE - uint64(r.Intn(100))
+			}
+			lo = new(big.Float).SetPrec(prec).SetFloat64(math.Float64frombits(b))
+			hi = new(big.Float).SetPrec(prec).SetFloat64(math.Float64frombits(b + 1))
+		}
+		mid := new(big.Float).SetPrec(prec).Add(lo, hi)
+		mid.Quo(mid, big.NewFloat(2))
+		// nudge by a relative 1e-25 .. 1e-40 up or down (far below half a float64 ulp for F4 midpoints)
+		eps := new(big.Float).SetPrec(prec).Quo(mid, new(big.Float).SetPrec(prec).SetFloat64(math.Pow(10, float64(25+r.Intn(16)))))
+		up := r.Bool()
+		if up {
+			mid.Add(mid, eps)
+		} else {
+			mid.Sub(mid, eps)
+		}
+		neg := r.Bool()
+		if neg {
+			mid.Neg(mid)
+		}
+		text := mid.Text('e', 60)
+		if r.Bool() && mid.MantExp(nil) < 200 && mid.MantExp(nil) > -60 {
+			text = mid.Text('f', 80)
+		}
+		// expected: a single rounding of the exact decimal that was written
+		exact, _, err := big.ParseFloat(text, 10, 2000, big.ToNearestEven)
+		if err != nil {
+			return
+		}
+		var bits uint64
+		if k == ref.F4 {
+			f, _ := exact.Float32()
+			bits = uint64(math.Float32bits(f))
+		} else {
+			f, _ := exact.Float64()
+			bits = math.Float64bits(f)
+		}
+		it := &ref.Item{Kind: k, Slots: []ref.Slot{{Uint: bits}}}
+		m := &ref.Msg{Stream: 2, Function: 3, W: 1, Dir: "H->E", Item: it, Session: -1}
+		c.Class("float-near-midpoint")
+		c05Eval(c, c05Case{Class: "valid", Text: fmt.Sprintf("S2F3 W H->E <%s %s> .", k, text), Msg: m, Note: "near-midpoint/" + k.String()})
+	})
+
 	// unspecified forms: an error, or one of the plausible readings
 	type unspec struct {
 		kind  ref.Kind
@@ -447,6 +510,31 @@ func runC05(c *ctx) {
 			c05Eval(c, c05Case{Class: "unspecified", Text: text, Alts: alts, Note: u.note + "/" + u.kind.String()})
 		}
 	}
+	// whatever reading an undocumented spelling gets, it is one reading: the same literal must not denote different
+	// numbers in items of different widths (each type may still reject it)
+	for _, lit := range []string{"010", "0377", "0128", "007", "00", "-010", "-0177", "0200", "01", "0100000", "+010"} {
+		seen := map[string]string{}
+		for _, k := range []ref.Kind{ref.I1, ref.I2, ref.I4, ref.I8, ref.U1, ref.U2, ref.U4, ref.U8, ref.B} {
+			text := fmt.Sprintf("S1F1 W H->E <%s %s> .", k, lit)
+			msgs, errs, _, o := smlParse(text)
+			c.NoteBulk(1, 1)
+			c.Class("undocumented-spelling-across-widths")
+			if o.Panicked || len(errs) > 0 || len(msgs) != 1 {
+				continue
+			}
+			body := itemPart(msgs[0].String())
+			val := strings.TrimSuffix(body[strings.Index(body, "] ")+2:], ">")
+			if k == ref.B {
+				if n, err := strconv.ParseInt(val, 0, 64); err == nil {
+					val = fmt.Sprint(n)
+				}
+			}
+			seen[val] += k.String() + " "
+		}
+		if len(seen) > 1 {
+			c.Violation("C05/one-literal-two-values/"+lit, fmt.Sprintf("the literal %s is read as %v depending on the item type", lit, seen), c05Case{Class: "unspecified", Text: "S1F1 W H->E <U1 " + lit + "> .", Note: "across-widths"})
+		}
+	}
 	// raw control characters and line breaks inside quotes: an error or the faithful value
 	for _, s := range []string{"a\tb", "\tx", "x\x01y", "a\x7fb", "a\nb", "\nab", "ab\n", "a\rb", "\r\nab", "a\x00b"} {
 		alt := &ref.Msg{Stream: 1, Function: 3, W: 0, Dir: "H<->E", Item: &ref.Item{Kind: ref.A, Str: []byte(s)}, Session: -1}
@@ -460,7 +548,7 @@ func runC05(c *ctx) {
 		c.Class("backslash-sequences")
 		c05Eval(c, c05Case{Class: "valid", Text: text, Msg: m, Note: "backslash-not-an-escape"})
 	}
-	c.Required = []string{"class/valid", "class/invalid", "class/unspecified", "systematic-position", "boundary-in-every-base", "backslash-sequences"}
+	c.Required = []string{"class/valid", "class/invalid", "class/unspecified", "float-near-midpoint", "systematic-position", "boundary-in-every-base", "backslash-sequences"}
 }
 
 func mathBits(v float64) uint64 { return ref.Float64Bits(v) }
